@@ -52,7 +52,7 @@ def worker_main(argv):
         fn = c["fn"]
         args = c.get("args", ())
 
-        core.QUERY_TIMEOUT_MS = c.get("query_timeout_ms", 20000)
+        core.QUERY_TIMEOUT_MS = c.get("query_timeout_ms", getattr(mod, "DEFAULT_QUERY_TIMEOUT_MS", 20000))
 
         def run(ctx, fn=fn, args=args):
             harness.reset_yowsup()
